@@ -31,3 +31,33 @@ Example C13_ex :
   sat_model (KSigned 256) OMul (2 ^ 200) (- 2 ^ 200) = Ok (- 2 ^ 255) /\
   sat_model KUInt OSub 3 5 = Ok 0.
 Proof. vm_compute. repeat split. Qed.
+
+(* ---- fixed-point kinds (Fix64, UFix64, Fix128, UFix128): model and proofs shared with C15.
+   (imported here, after the integer theorems, so that the names above keep their Num.IntModel meaning) ---- *)
+From CV Require Import C15.Model C15.Proofs64 C15.ProofsLib.
+
+(* Fix64 / UFix64 saturating functions are code inside /repo (transcribed): no assumption *)
+Theorem C13_fix64_saturating_clamps : forall op a b,
+  n_in_range NFix64 a -> n_in_range NFix64 b -> fix64_sat op a b = spec_sat NFix64 op a b.
+Proof. exact fix64_sat_correct. Qed.
+Print Assumptions C13_fix64_saturating_clamps.
+
+Theorem C13_ufix64_saturating_clamps : forall op a b,
+  sat_declared NUFix64 op = true -> n_in_range NUFix64 a -> n_in_range NUFix64 b ->
+  ufix64_sat op a b = spec_sat NUFix64 op a b.
+Proof. exact ufix64_sat_correct. Qed.
+Print Assumptions C13_ufix64_saturating_clamps.
+
+(* all four fixed-point kinds with the external fixed-point library as assumed (a hypothesis, not an axiom);
+   div_edge excludes the library's known division defect (known_findings/C13.json) *)
+Theorem C13_fixed_saturating_clamps_partial : forall lib_fmd lib_add lib_sub lib_mod lib_neg,
+  lib_as_assumed lib_fmd lib_add lib_sub lib_mod lib_neg ->
+  forall k op a b, is_fixed k = true -> sat_declared k op = true -> n_in_range k a -> n_in_range k b ->
+  ~ div_edge k op a b ->
+  sat_model lib_fmd lib_add lib_sub k op a b = spec_sat k op a b.
+Proof. exact sat_model_correct. Qed.
+Print Assumptions C13_fixed_saturating_clamps_partial.
+
+Example C13_fix64_ex :
+  fix64_sat FDiv 9223372036854775807 (-50000000) = spec_sat NFix64 FDiv 9223372036854775807 (-50000000).
+Proof. vm_compute. reflexivity. Qed.
